@@ -29,12 +29,14 @@ META = {
                  "judges every recorded observation",
 }
 
-INVS = ["TypedHaveKind", "UntypedNoKind", "SiteValid", "GroupsDisjoint", "KindInjective", "FrameworkCovered"]
+INVS = ["TypedHaveKind", "UntypedNoKind", "SiteValid", "GroupsDisjoint", "KindInjective", "FrameworkCovered",
+        "CoordsValid", "OneAtATime"]
 TYPED = ["MethodNotImplementedError", "ProtocolVersionError", "SessionLostError", "ServerDrainingError", "UserSessionLost"]
 BUILTINS_Q = ["ValueError", "KeyError", "TypeError"]
 BUILTINS_T = ["ValueError", "KeyError", "TypeError", "RuntimeError", "AttributeError", "OSError", "BrokenPipeError",
               "StopIteration", "AssertionError", "NotImplementedError", "ZeroDivisionError", "PermissionError",
-              "LookupError", "ArrowInvalid", "RpcError", "VersionError", "UnicodeDecodeError", "Exception"]
+              "LookupError", "ArrowInvalid", "RpcError", "VersionError", "UnicodeDecodeError", "Exception",
+              "ExceptionGroup", "HTTPBadRequest"]
 USER_Q = ["UserError"]
 USER_T = ["UserError", "UserValueError", "UserStrError"]
 SITES_Q = ["init", "init_log", "p1", "p1_emit", "p2", "p2_log"]
@@ -68,6 +70,14 @@ def concretize(mclass: str, idx: int, rng: random.Random, thorough: bool) -> lis
         return [("", 0)]
     if mclass == "empty":
         return [("", 1)]
+    if mclass == "multiarg":          # C(text, 42): str(exc) is the repr of the args tuple
+        return [(FIXED["ascii"][idx % len(FIXED["ascii"])], 2)] + ([(FIXED["multiline"][idx % 5], 2)] if thorough else [])
+    if mclass == "nonstr":            # C(12345)
+        return [("", 3)]
+    if mclass == "surrogate":         # SURR_MARK + 4 hex digits = one lone surrogate, built on the server side
+        pool = ["cannot open data-\uf8ffdcff.bin", "\uf8ffd800", "tail \uf8ffdfff", "\uf8ffdc80 two \uf8ffdc81 of them",
+                "h\u00e9 \uf8ffdcff mixed \U0001f680"]
+        return [(pool[idx % len(pool)], 1)]
     fixed = FIXED[mclass] + (LONG_T if (thorough and mclass == "long") else [])
     out = [(fixed[idx % len(fixed)], 1)]
     if thorough:
@@ -95,14 +105,46 @@ def _world(tr: str):
 
     w = _WORLDS.get(tr)
     if w is None:
-        if tr == "pipe":
-            w = W.PipeWorld()
+        if tr in ("pipe", "unix", "tcp", "shm"):
+            w = W.PipeWorld(pair=tr)
+        elif tr == "pipehook":
+            w = W.PipeWorld(hook=True)
         elif tr == "http":
             w = W.HttpWorld()
-        else:
+        elif tr == "httpbuf":
             w = W.HttpWorld(max_response_bytes=1_000_000)
+        elif tr == "httpsticky":
+            w = W.HttpWorld(enable_sticky=True)
+        elif tr == "httpplain":
+            w = W.HttpWorld(plain=True)
+        elif tr == "httphook":
+            w = W.HttpWorld(hook=True)
+        else:
+            raise ValueError(tr)
         _WORLDS[tr] = w
     return w
+
+
+def _carried(text: str, got: str) -> bool:
+    """The exception text is carried: verbatim, or -- when it holds lone surrogates, which UTF-8 cannot encode --
+    every surrogate-free segment of it, in order."""
+    if not any(0xD800 <= ord(ch) <= 0xDFFF for ch in text):
+        return text in got
+    seg, segs = "", []
+    for ch in text:
+        if 0xD800 <= ord(ch) <= 0xDFFF:
+            segs.append(seg)
+            seg = ""
+        else:
+            seg += ch
+    segs.append(seg)
+    pos = 0
+    for sg in segs:
+        i = got.find(sg, pos)
+        if i < 0:
+            return False
+        pos = i + len(sg)
+    return True
 
 
 def _exec(job: dict, fresh: bool = False) -> dict:
@@ -110,7 +152,7 @@ def _exec(job: dict, fresh: bool = False) -> dict:
 
     c = job["case"]
     tr = c["tr"]
-    http = tr != "pipe"
+    http = tr.startswith("http")
     if fresh:
         _WORLDS.pop(tr, None)
     w = _world(tr)
@@ -121,8 +163,9 @@ def _exec(job: dict, fresh: bool = False) -> dict:
     follow: dict = {}
 
     def body():
-        r = W.run_call(w.px, c["shape"], c["cls"] if c["cls"] != "none" else "ValueError", job["msg"], job["argc"],
-                       site, ["i"], http)
+        cls = c["cls"] if c["cls"] != "none" else "ValueError"
+        cls += "".join("+" + x for x in (c["chain"], c["depth"]) if x in ("cause", "context", "deep"))
+        r = W.run_call(w.px, c["shape"], cls, job["msg"], job["argc"], site, ["i"], http, mode=c["mode"])
         if http and c["cls"] != "none":
             # a *successful* call of the same shape right after the failure, in the same thread / request context:
             # its responses are successful responses and must not carry the marker
@@ -140,7 +183,7 @@ def _exec(job: dict, fresh: bool = False) -> dict:
          "kind": "", "done": False, "http": [], "follow": "none"}
     info: dict = {"events": None, "srv_kind": srv["kind"] if srv else None}
     if hung:
-        if tr == "pipe":
+        if not http:
             w.reopen()
     else:
         ev = res["events"]
@@ -149,7 +192,7 @@ def _exec(job: dict, fresh: bool = False) -> dict:
         if res["errors"]:
             e = res["errors"][0]
             o["etype"] = str(e.error_type)
-            o["msg_ok"] = bool(srv is not None and srv["text"] in e.error_message)
+            o["msg_ok"] = bool(srv is not None and _carried(srv["text"], e.error_message))
             info["error_message_len"] = len(e.error_message)
             info["error_message_head"] = e.error_message[:160]
             if hasattr(e, "error_kind"):
@@ -206,7 +249,7 @@ def work(jobs: list[dict]) -> list[dict]:
     out = []
     for job in jobs:
         r = _exec(job)
-        if r["obs"]["hung"] or (job["case"]["tr"] == "pipe" and _suspicious(job["case"], r["obs"])):
+        if r["obs"]["hung"] or (not job["case"]["tr"].startswith("http") and _suspicious(job["case"], r["obs"])):
             # a verdict must not depend on what an earlier call left on the connection (that is C04's subject),
             # nor on a slow machine: anything odd is repeated on a fresh connection with a generous watchdog
             r2 = _exec(job, fresh=True)
@@ -224,7 +267,17 @@ def run(ctx: Ctx) -> None:
     consts = {"Builtins": set(BUILTINS_Q if quick else BUILTINS_T), "UserClasses": set(USER_Q if quick else USER_T),
               "TypedClasses": set(TYPED[:4] if quick else TYPED), "MsgClasses": set(MSGS[1:] if quick else MSGS),
               "Transports": {"pipe", "http"} if quick else {"pipe", "http", "httpbuf"},
-              "StreamSites": set(SITES_Q if quick else SITES_T)}
+              "StreamSites": set(SITES_Q if quick else SITES_T),
+              # one-at-a-time variations (gap review): reduced grid x {extra transports, extra message shapes,
+              # exception chains, deep tracebacks, alternative client consumption}
+              "VClasses": {"ValueError", "SessionLostError"} if quick
+              else {"ValueError", "KeyError", "UserError", "SessionLostError", "MethodNotImplementedError"},
+              "VMsgClasses": {"ascii"} if quick else {"empty", "ascii", "long"},
+              "XMsgClasses": {"multiarg", "nonstr", "surrogate"},
+              "XTransports": {"unix", "shm", "pipehook", "httphook", "httpsticky", "httpplain"} if quick
+              else {"unix", "tcp", "shm", "pipehook", "httphook", "httpsticky", "httpplain"},
+              "Chains": {"none", "cause", "context"}, "Depths": {"shallow", "deep"},
+              "Modes": {"iter", "foriter", "token"}}
     nproc = int(os.environ.get("VERIF_PROCS", "8" if quick else "10"))
     pool = mp.get_context("spawn").Pool(nproc, initializer=_warm)       # imports overlap with the TLC enumeration
     try:
@@ -238,7 +291,8 @@ def run(ctx: Ctx) -> None:
                    "stream calls are consumed by iterating until the error / the end (tick on pipes, __iter__ / exchange over HTTP)",
                    "quick runs a class subset (3 built-in, 1 user, the 4 framework typed errors), 5 of the 6 message classes and 6 of the 9 stream sites on pipe+http; thorough all 26 classes, all message classes, all sites and httpbuf")
 
-        cases.sort(key=lambda j: (j["case"]["tr"], j["case"]["cls"], j["case"]["shape"], j["case"]["site"], j["case"]["msg"]))
+        cases.sort(key=lambda j: (j["case"]["tr"], j["case"]["cls"], j["case"]["shape"], j["case"]["site"], j["case"]["msg"],
+                              j["case"]["mode"], j["case"]["chain"], j["case"]["depth"]))
         jobs = []
         for i, cj in enumerate(cases):
             c = cj["case"]
